@@ -7,7 +7,8 @@
 (***************************************************************************)
 EXTENDS Trash, Json
 
-CONSTANTS MaxDepth
+CONSTANTS MaxDepth,
+          GenLevel     \* 1 = the argument ranges of the quick tier, 2 = the full ranges
 
 Emit == PrintT("@@" \o ToJson([cfg |-> cfg, pre |-> St, lab |-> out', post |-> St']))
 Bound == TLCGet("level") <= MaxDepth
@@ -112,5 +113,146 @@ Next_Clobber ==
   \E sort \in {"date", "path"}, ow \in BOOLEAN,
      reply \in {[k |-> "idx", idx |-> <<0>>], [k |-> "idx", idx |-> <<1>>], [k |-> "idx", idx |-> <<0, 1>>], [k |-> "idx", idx |-> <<1, 0>>]} :
      Restore([k |-> "root"], "none", sort, reply, ow) /\ Emit
+
+-----------------------------------------------------------------------------
+(* C08: every state of $topdir/.Trash with a populated .Trash/$uid, all five commands *)
+
+CfgsInsecure ==
+  {[mounted |-> m, top |-> TopOn("V1", x), altfile |-> {}, xdg |-> "set", home |-> "set", kind |-> KindsFDLX] :
+      m \in {{"R", "V1"}, {"R", "V1", "V2"}}, x \in TopStates \ {"absent", "file"}}
+Init_Insecure ==
+  /\ cfg \in CfgsInsecure
+  /\ dirs = BaseDirs
+  /\ live = {[r |-> "V1", d |-> "top", n |-> "b", o |-> 1], [r |-> "R", d |-> "d", n |-> "b", o |-> 2]}
+  /\ tex = {"t1:V1", "t2:V1", "home"}
+  /\ items = {[t |-> "t1:V1", o |-> 5, r |-> "V1", d |-> "d", n |-> "a", date |-> 0],
+              [t |-> "t2:V1", o |-> 6, r |-> "V1", d |-> "top", n |-> "a", date |-> 1],
+              [t |-> "home", o |-> 7, r |-> "R", d |-> "d", n |-> "a", date |-> 1]}
+  /\ orph \in {{}, {[t |-> "t1:V1", o |-> 9]}}
+  /\ strays = {} /\ junk = {}
+  /\ clock = 7 /\ purged = {} /\ out = [cmd |-> "init"]
+Next_Insecure ==
+  \/ \E a \in {[class |-> "entry", r |-> "V1", d |-> "top", n |-> "b"], [class |-> "entry", r |-> "R", d |-> "d", n |-> "b"]} :
+        Put(<<a>>, [force |-> FALSE, inter |-> "off", td |-> "none", hf |-> FALSE, hfenv |-> FALSE]) /\ Emit
+  \/ List("none") /\ Emit
+  \/ \E f \in {[k |-> "root"], [k |-> "dir", r |-> "V1", d |-> "top"], [k |-> "dir", r |-> "V1", d |-> "d"]},
+        sort \in {"date", "path", "none"},
+        reply \in {[k |-> "idx", idx |-> <<0>>], [k |-> "idx", idx |-> <<1>>], [k |-> "idx", idx |-> <<2>>], [k |-> "idx", idx |-> <<0, 1>>], [k |-> "eof"]} :
+        Restore(f, "none", sort, reply, FALSE) /\ Emit
+  \/ \E days \in {-1, 0, 1}, dry \in BOOLEAN : Empty([days |-> days, dry |-> dry, consent |-> "auto", td |-> "none"]) /\ Emit
+  \/ \E p \in {[k |-> "name", n |-> "a"], [k |-> "all"], [k |-> "path", r |-> "V1", d |-> "d", n |-> "a"]} : Rm(p) /\ Emit
+
+-----------------------------------------------------------------------------
+(* C10 / C14: trash-empty around the DAYS threshold; dry run; consent                *)
+
+CfgsEmpty == {[mounted |-> {"R", "V1"}, top |-> TopOn("V1", x), altfile |-> {}, xdg |-> xd, home |-> "set", kind |-> KindsFDLX] :
+                 x \in {"absent", "sticky"}, xd \in {"set", "unset"}}
+\* clock = 10; with DayTicks = 3 a day is 3 ticks: dates around now - days*3 for days in 0..3
+DatePool == IF GenLevel >= 2 THEN {0, 1, 3, 4, 5, 6, 7, 8, 9, 10, 11, 12, NoDate} ELSE {0, 3, 4, 5, 7, 9, 10, 11, NoDate}
+Init_Dates ==
+  /\ cfg \in CfgsEmpty
+  /\ dirs = BaseDirs /\ live = {[r |-> "R", d |-> "d", n |-> "a", o |-> 1]}
+  /\ tex = {"home", "t2:V1", "c:V1"}
+  /\ \E d1 \in DatePool, d2 \in (IF GenLevel >= 2 THEN DatePool ELSE {4, 7, NoDate}), d3 \in (IF GenLevel >= 2 THEN {1, 7, 10} ELSE {7}) :
+       items = {[t |-> "home", o |-> 5, r |-> "R", d |-> "d", n |-> "a", date |-> d1],
+                [t |-> "t2:V1", o |-> 6, r |-> "V1", d |-> "d", n |-> "b", date |-> d2],
+                [t |-> "home", o |-> 7, r |-> "R", d |-> "top", n |-> "a", date |-> d3],
+                [t |-> "c:V1", o |-> 8, r |-> "V1", d |-> "top", n |-> "a", date |-> d1]}
+  /\ orph \in {{}, {[t |-> "home", o |-> 9], [t |-> "t2:V1", o |-> 10]}}
+  /\ strays \in {{}, {[t |-> "home", id |-> 1, r |-> "R", d |-> "d", n |-> "b", date |-> 4]}}
+  /\ junk = {}
+  /\ clock = 10 /\ purged = {} /\ out = [cmd |-> "init"]
+Next_EmptyDays ==
+  \E days \in {-1, 0, 1, 2, 3}, td \in {"none", "V1"} :
+     Empty([days |-> days, dry |-> FALSE, consent |-> "auto", td |-> td]) /\ Emit
+Next_EmptyConsent ==
+  \E days \in {-1, 0, 1, 2}, dry \in BOOLEAN, consent \in {"auto", "yes", "no"}, td \in {"none", "V1"} :
+     (dry \/ consent # "auto") /\ Empty([days |-> days, dry |-> dry, consent |-> consent, td |-> td]) /\ Emit
+
+-----------------------------------------------------------------------------
+(* C12: trash-rm patterns; C13: trash-restore scope, order and index sets             *)
+
+Init_Many ==
+  /\ cfg \in {[mounted |-> m, top |-> TopOn("V1", x), altfile |-> {}, xdg |-> "set", home |-> "set", kind |-> KindsFDLX] :
+                  m \in {{"R", "V1"}, {"R", "H", "V1"}, {"R", "V1", "V2"}}, x \in {"absent", "sticky"}}
+  /\ dirs \in {BaseDirs, TopDirs \cup {[r |-> "R", d |-> "d"]}}
+  /\ live = {}
+  /\ tex = {"home", "t2:V1"} \cup (IF cfg.top["V1"] = "sticky" THEN {"t1:V1"} ELSE {})
+  /\ \E v \in 1 .. 3 :
+       items = CASE v = 1 -> {[t |-> "home", o |-> 1, r |-> "R", d |-> "d", n |-> "a", date |-> 2],
+                              [t |-> "home", o |-> 2, r |-> "R", d |-> "de", n |-> "a", date |-> 1],
+                              [t |-> "t2:V1", o |-> 3, r |-> "V1", d |-> "d", n |-> "a", date |-> 1],
+                              [t |-> "t2:V1", o |-> 4, r |-> "V1", d |-> "top", n |-> "b", date |-> 0]}
+                 [] v = 2 -> {[t |-> "home", o |-> 1, r |-> "R", d |-> "top", n |-> "a", date |-> 0],
+                              [t |-> "home", o |-> 2, r |-> "R", d |-> "top", n |-> "b", date |-> 3],
+                              [t |-> (IF cfg.top["V1"] = "sticky" THEN "t1:V1" ELSE "t2:V1"), o |-> 3, r |-> "V1", d |-> "de", n |-> "b", date |-> 2]}
+                 [] OTHER -> {[t |-> "home", o |-> 1, r |-> "R", d |-> "d", n |-> "a", date |-> 1],
+                              [t |-> "home", o |-> 2, r |-> "R", d |-> "d", n |-> "b", date |-> 1],
+                              [t |-> "t2:V1", o |-> 3, r |-> "V1", d |-> "d", n |-> "a", date |-> 1],
+                              [t |-> "t2:V1", o |-> 6, r |-> "V1", d |-> "d", n |-> "b", date |-> 2]}
+  /\ orph = {} /\ junk = {}
+  /\ strays \in {{}, {[t |-> "home", id |-> 1, r |-> "R", d |-> "d", n |-> "b", date |-> 4]}}
+  /\ clock = 5 /\ purged = {} /\ out = [cmd |-> "init"]
+Next_Rm == \E p \in PatSet : (p.k = "path" => p.r \in {"R", "V1"}) /\ Rm(p) /\ Emit
+FromsAll == IF GenLevel >= 2
+            THEN [k : {"root"}] \cup [k : {"dir"}, r : {"R", "V1", "H"}, d : Dirs] \cup [k : {"entry"}, r : {"R", "V1"}, d : {"d", "de"}, n : Names]
+            ELSE {[k |-> "root"], [k |-> "dir", r |-> "R", d |-> "top"], [k |-> "dir", r |-> "R", d |-> "d"], [k |-> "dir", r |-> "V1", d |-> "d"],
+                  [k |-> "dir", r |-> "V1", d |-> "de"], [k |-> "dir", r |-> "H", d |-> "top"], [k |-> "entry", r |-> "R", d |-> "d", n |-> "a"],
+                  [k |-> "entry", r |-> "V1", d |-> "d", n |-> "b"]}
+Next_RestoreSel ==
+  \E f \in FromsAll, sort \in {"date", "path", "none"} :
+    LET n == Cardinality(Offerable(cfg, St, f, "none")) IN
+    \E reply \in [k : {"eof", "empty", "invalid"}] \cup {[k |-> "idx", idx |-> <<i>>] : i \in 0 .. n}
+                  \cup (IF GenLevel >= 2 THEN {[k |-> "idx", idx |-> <<i, j>>] : i \in 0 .. n, j \in 0 .. n - 1}
+                                        ELSE {[k |-> "idx", idx |-> <<0, 1>>], [k |-> "idx", idx |-> <<1, 0>>], [k |-> "idx", idx |-> <<0, n>>], [k |-> "idx", idx |-> <<1, 1>>]})
+                  \cup {[k |-> "idx", idx |-> <<0, 1, 2>>], [k |-> "idx", idx |-> <<2, 1, 0>>]} :
+      /\ (GenLevel >= 2 \/ n <= 3 \/ sort # "none")
+      /\ (strays # {} => reply.k # "idx" \/ sort # "none")
+      /\ Restore(f, "none", sort, reply, FALSE) /\ Emit
+
+-----------------------------------------------------------------------------
+(* C19: malformed neighbours                                                           *)
+
+Init_Junk ==
+  /\ cfg \in {[mounted |-> {"R", "V1"}, top |-> TopOn("V1", x), altfile |-> {}, xdg |-> "set", home |-> "set", kind |-> KindsFDLX] : x \in {"absent", "sticky"}}
+  /\ dirs = BaseDirs /\ live = {}
+  /\ tex = {"home", "t2:V1"}
+  /\ \E und \in BOOLEAN :
+      items = {[t |-> "home", o |-> 1, r |-> "R", d |-> "d", n |-> "a", date |-> 2],
+               [t |-> "home", o |-> 2, r |-> "R", d |-> "d", n |-> "b", date |-> 8],
+               [t |-> "t2:V1", o |-> 3, r |-> "V1", d |-> "d", n |-> "a", date |-> 5]}
+              \cup (IF und THEN {[t |-> "home", o |-> 5, r |-> "R", d |-> "top", n |-> "a", date |-> NoDate]} ELSE {})
+  /\ junk \in SUBSET {[t |-> "home", id |-> 1, kind |-> "nopath"], [t |-> "home", id |-> 2, kind |-> "notinfo"], [t |-> "t2:V1", id |-> 3, kind |-> "nopath"]}
+  /\ orph \in {{}, {[t |-> "home", o |-> 9]}}
+  /\ strays \in {{}, {[t |-> "home", id |-> 1, r |-> "R", d |-> "d", n |-> "b", date |-> 4]}}
+  /\ clock = 10 /\ purged = {} /\ out = [cmd |-> "init"]
+Next_Junk ==
+  \/ List("none") /\ Emit
+  \/ \E sort \in {"date", "path", "none"}, reply \in {[k |-> "idx", idx |-> <<0>>], [k |-> "idx", idx |-> <<1>>], [k |-> "idx", idx |-> <<0, 2>>], [k |-> "eof"]},
+        f \in {[k |-> "root"], [k |-> "dir", r |-> "R", d |-> "d"]} :
+        (strays = {} \/ reply.k # "idx") /\ Restore(f, "none", sort, reply, FALSE) /\ Emit
+  \/ \E days \in {-1, 0, 1, 2} : Empty([days |-> days, dry |-> FALSE, consent |-> "auto", td |-> "none"]) /\ Emit
+  \/ \E p \in {[k |-> "name", n |-> "a"], [k |-> "all"], [k |-> "path", r |-> "R", d |-> "d", n |-> "b"], [k |-> "nomatch"]} : Rm(p) /\ Emit
+
+Next_JunkMC ==
+  \/ \E days \in {-1, 0, 1, 2} : Empty([days |-> days, dry |-> FALSE, consent |-> "auto", td |-> "none"])
+  \/ \E p \in {[k |-> "name", n |-> "a"], [k |-> "all"]} : Rm(p)
+  \/ List("none")
+
+-----------------------------------------------------------------------------
+(* C16: argument lists                                                                *)
+
+LiveArgsL == {[r |-> "R", d |-> "d", n |-> "a", o |-> 1], [r |-> "V1", d |-> "top", n |-> "a", o |-> 2],
+              [r |-> "V1", d |-> "d", n |-> "b", o |-> 3], [r |-> "R", d |-> "top", n |-> "b", o |-> 4]}
+Init_PutList ==
+  /\ cfg \in {[mounted |-> {"R", "V1"}, top |-> TopOn("V1", x), altfile |-> af, xdg |-> "set", home |-> "set", kind |-> KindsFDLX] :
+                  x \in {"absent", "sticky", "file"}, af \in {{}, {"V1"}}}
+  /\ dirs = BaseDirs /\ live = LiveArgsL /\ EmptyTrash
+  /\ clock = 1 /\ purged = {} /\ out = [cmd |-> "init"]
+ArgsL == {[class |-> "entry", r |-> e.r, d |-> e.d, n |-> e.n] : e \in LiveArgsL}
+         \cup {[class |-> "entry", r |-> "R", d |-> "d", n |-> "b"], [class |-> "dot", r |-> "R", d |-> "d"], [class |-> "mount", r |-> "V1"]}
+OptsL == {o \in PutOptsSet : o.td = "none" /\ ~o.hf /\ ~o.hfenv /\ (o.inter # "off" => ~o.force) /\ o.inter # "decline"}
+Next_Put2 == \E a, b \in ArgsL, o \in OptsL : Put(<<a, b>>, o) /\ Emit
+Next_Put3 == \E a, b, c \in ArgsL, o \in OptsL : a # b /\ b # c /\ ~o.force /\ o.inter = "off" /\ Put(<<a, b, c>>, o) /\ Emit
 
 =============================================================================
